@@ -6,7 +6,6 @@ import (
 	"encoding/json"
 	"errors"
 	"fmt"
-	"os"
 	"sort"
 	"strings"
 	"sync"
@@ -396,16 +395,26 @@ func abstractIDs(ids string, hist []porcupine.Operation) string {
 func c09Run(c *fw.Ctx) {
 	specs := c09Specs()
 	for i, sp := range specs {
-		if only := os.Getenv("VERIF_ONLY_SCENARIO"); only != "" && !strings.HasPrefix(sp.ID, only) {
-			continue
-		}
-		c.Share(len(specs)-i, func() { exploreSched(c, c09Scenario(c, sp)) })
+		c.Share(len(specs)-i+1, func() { exploreSched(c, c09Scenario(c, sp)) })
+	}
+	// the full-stack scenario last, with all the time that is left
+	// (the mem variant with its size enforcer has 40k+ schedules already at bound 0: thorough only)
+	stack := fw.Pick(c, []string{"file"}, []string{"file", "mem"})
+	for i, be := range stack {
+		be := be
+		c.Share(len(stack)-i, func() { exploreSched(c, c09StackScenario(c, be)) })
 	}
 }
 
 func c09Replay(c *fw.Ctx, raw json.RawMessage) {
 	var cas schedCase
 	_ = json.Unmarshal(raw, &cas)
+	for _, be := range []string{"mem", "file"} {
+		if sc := c09StackScenario(c, be); sc.ID == cas.Scenario {
+			replaySched(c, sc, raw)
+			return
+		}
+	}
 	for _, sp := range c09Specs() {
 		if sp.ID == cas.Scenario {
 			replaySched(c, c09Scenario(c, sp), raw)
@@ -417,4 +426,126 @@ func c09Replay(c *fw.Ctx, raw json.RawMessage) {
 
 func init() {
 	fw.Register(&fw.Body{ID: "C09", Part: "sched", Run: c09Run, ReplayCase: c09Replay})
+}
+
+// ---------------------------------------------------------------------------------------------
+// Full-stack scenario: the concurrent clients the property names — an SMTP delivery, a REST
+// delete, a POP3 session committing a deletion, with the size enforcer in the background — on
+// one mailbox.  Oracle: no panic/deadlock, every protocol step answered as expected, and the
+// final mailbox is exactly (initial − deleted) + delivered.
+
+func c09StackScenario(c *fw.Ctx, backend string) schedScenario {
+	id := "S20-" + backend + "-stack-smtp-rest-pop3"
+	run := func(cfg vsched.Config) (res schedResult) {
+		var e *vsched.Exec
+		var mu sync.Mutex
+		notes := map[string]string{}
+		note := func(k, v string) { mu.Lock(); notes[k] = v; mu.Unlock() }
+		var finalIDs []string
+		var initIDs []string
+		leaked := inBubble(c.T, func() {
+			var s *sys.Sys
+			e = vsched.Run(cfg, func() (func(), []vsched.Thread, func()) {
+				spec := sys.StoreSpec{Backend: backend}
+				if backend == "mem" {
+					spec.MaxKB = 64
+				}
+				s = sys.New(sys.Spec{Store: spec, SMTP: sys.DefaultSMTP(), Web: true, NoHub: true})
+				init := func() {
+					for i := 0; i < 2; i++ {
+						id, err := s.StoreH.Store.AddMessage(sys.Delivery("u", "f@x.test", []string{"u@x.test"}, fmt.Sprintf("init%d", i), sizedBody(60), time.Unix(1700000000+int64(i), 0)))
+						if err != nil {
+							panic("VERIF-INFRA init: " + err.Error())
+						}
+						initIDs = append(initIDs, id)
+					}
+				}
+				smtpClient := func() {
+					k := s.DialSMTP()
+					d := &sys.SMTPDriver{K: k}
+					d.Greeting()
+					for _, l := range []string{"HELO c", "MAIL FROM:<s@o.test>", "RCPT TO:<u@x.test>"} {
+						vsched.Point("smtp client: " + strings.Fields(l)[0])
+						d.Cmd(l)
+					}
+					vsched.Point("smtp client: DATA")
+					_, fin := d.Data("Subject: stack\r\n\r\nnew mail\r\n")
+					note("smtp", fin.String())
+					vsched.Point("smtp client: QUIT")
+					d.Cmd("QUIT")
+					k.Close()
+				}
+				restClient := func() {
+					vsched.Point("rest client: DELETE first message")
+					r := s.HTTP("DELETE", "/api/v1/mailbox/u/"+initIDs[0], nil)
+					note("rest", fmt.Sprintf("%d panic=%v", r.Status, r.Panic))
+				}
+				popClient := func() {
+					p := s.DialPOP3()
+					line := func() string { l, _ := p.ReadLine(); return strings.TrimSpace(l) }
+					line()
+					var got []string
+					for _, l := range []string{"USER u", "PASS p", "DELE 2", "QUIT"} {
+						vsched.Point("pop3 client: " + l)
+						_ = p.Send(l)
+						got = append(got, line())
+					}
+					note("pop3", strings.Join(got, " | "))
+					p.Close()
+				}
+				cleanup := func() {
+					safely(func() {
+						ms, err := s.StoreH.Store.GetMessages("u")
+						if err == nil {
+							for _, m := range ms {
+								finalIDs = append(finalIDs, m.ID())
+							}
+						} else {
+							finalIDs = []string{"ERR " + err.Error()}
+						}
+					})
+					s.Close()
+				}
+				return init, []vsched.Thread{{Name: "smtp", F: smtpClient}, {Name: "rest", F: restClient}, {Name: "pop3", F: popClient}}, cleanup
+			})
+		})
+		if leaked != "" && (e == nil || (len(e.Panics) == 0 && !e.Deadlock)) {
+			res.Infra = "bubble: " + leaked
+			return res
+		}
+		res.Exec = e
+		res.Probs = append(res.Probs, stdProbs(e)...)
+		res.Outcome = fmt.Sprintf("smtp=%q rest=%q pop3=%q final=%d", notes["smtp"], notes["rest"], notes["pop3"], len(finalIDs))
+		if len(res.Probs) > 0 {
+			return res
+		}
+		if !strings.HasPrefix(notes["smtp"], "250") {
+			res.Probs = append(res.Probs, [2]string{"smtp-not-acknowledged", "the SMTP delivery was not acknowledged: " + notes["smtp"]})
+		}
+		if notes["rest"] != "200 panic=<nil>" {
+			res.Probs = append(res.Probs, [2]string{"rest-delete-failed", "REST DELETE of an existing message answered " + notes["rest"]})
+		}
+		// POP3: the snapshot was taken at PASS; message number 2 of the snapshot is deleted on QUIT.
+		// Whatever the snapshot was, afterwards neither init message survives only if POP3's
+		// number 2 was the second init message; if the REST delete came first, number 2 is the
+		// newly delivered message or does not exist.  The invariant that must always hold:
+		has := map[string]bool{}
+		for _, id := range finalIDs {
+			has[id] = true
+		}
+		if has[initIDs[0]] {
+			res.Probs = append(res.Probs, [2]string{"deleted-message-still-there", fmt.Sprintf("the message deleted through REST (200) is still listed at the end: %v", finalIDs)})
+		}
+		if len(finalIDs) > 2 {
+			res.Probs = append(res.Probs, [2]string{"too-many-messages", fmt.Sprintf("2 initial − 1 deleted + 1 delivered leaves at most 2 messages, the mailbox lists %v", finalIDs)})
+		}
+		if strings.Contains(notes["pop3"], "+OK Deleted message 2") && strings.HasSuffix(notes["pop3"], "+OK We will process your deletes") && len(finalIDs) > 1 {
+			res.Probs = append(res.Probs, [2]string{"pop3-delete-not-applied", fmt.Sprintf("POP3 marked message 2 and QUIT was accepted, REST deleted another message, yet %d messages remain: %v (pop3: %s)", len(finalIDs), finalIDs, notes["pop3"])})
+		}
+		if len(finalIDs) == 0 && !strings.Contains(notes["pop3"], "+OK Deleted message 2") {
+			res.Probs = append(res.Probs, [2]string{"mail-lost", fmt.Sprintf("the mailbox is empty although only one message was deleted (pop3: %s)", notes["pop3"])})
+		}
+		return res
+	}
+	return schedScenario{ID: id, Bound: fw.Pick(c, 0, 1), Run: run}
 }
